@@ -1,3 +1,546 @@
-//! C19 — not built yet.
-pub const BUILT: bool = false;
-pub fn run(_rep: &mut vx::Report) {}
+//! C19 — damaged cross-reference data is reconstructed faithfully.
+//!
+//! Space (fault enumeration, nothing sampled): 6 valid single-revision files without object
+//! streams (3 written by the library's own writer, 3 by the refpdf builder) × the damage
+//! catalogue {shift every in-use offset by δ ∈ {+1,−1,+7,−7,+1000}; corrupt entry i in two styles
+//! (offset digits made unparsable / offset +3 = inside the object header), each i; swap the
+//! offsets of entries i and j, every pair; delete the table (keep the trailer); delete
+//! `startxref`; point it at 0 / inside the first object / at end of file; delete the `trailer`
+//! keyword} — all single damages (quick), all unordered pairs of damages (thorough); × the
+//! presets with recovery enabled (default, lenient, skip_errors).
+//! Oracle: the library's own intact open of the same file under the same preset — catalog,
+//! page count (reader and document) and the value of every object must be equal.
+//! Two regimes are keyed apart: damage that makes the primary cross-reference parse fail (the
+//! recovery scan runs) and damage that leaves a syntactically parsable but wrong table.
+use crate::util::objcmp;
+use oxidize_pdf::parser::{ParseOptions, PdfDocument, PdfReader};
+use refpdf::builder::{FileBuilder, Revision, XrefForm};
+use refpdf::file::PdfFile;
+use refpdf::syntax::Obj;
+use serde_json::json;
+use std::collections::BTreeMap;
+use std::io::Cursor;
+use vx::{Ctx, Explore, Report};
+
+pub const BUILT: bool = true;
+
+// ------------------------------------------------------------------ seeds
+
+#[derive(Clone, Debug)]
+struct Entry {
+    num: u32,
+    off: u64,
+    gen: u16,
+    in_use: bool,
+    eol: [u8; 2],
+}
+
+#[derive(Clone, Debug)]
+struct Seed {
+    name: &'static str,
+    bytes: Vec<u8>,
+    /// offset of the `xref` keyword
+    xref_off: usize,
+    /// bytes between `xref` line and first subsection header: always "xref" + eol
+    xref_line: Vec<u8>,
+    /// (header line bytes incl. eol, entries)
+    subsections: Vec<(Vec<u8>, Vec<Entry>)>,
+    /// from the `trailer` keyword up to (not including) `startxref`
+    trailer_kw_len: usize,
+    trailer: Vec<u8>,
+    /// everything from `startxref` on is re-rendered: "startxref" eol N eol "%%EOF" rest
+    tail_after_number: Vec<u8>,
+    /// flat indices (subsection, entry) of in-use entries
+    in_use: Vec<(usize, usize)>,
+}
+
+fn find_last(h: &[u8], n: &[u8]) -> Option<usize> {
+    (0..=h.len().checked_sub(n.len())?).rev().find(|&i| &h[i..i + n.len()] == n)
+}
+
+fn read_line(b: &[u8], pos: usize) -> (usize, usize) {
+    // returns (end of content, start of next line)
+    let mut e = pos;
+    while e < b.len() && b[e] != b'\n' && b[e] != b'\r' {
+        e += 1;
+    }
+    let mut n = e;
+    if n < b.len() && b[n] == b'\r' {
+        n += 1;
+    }
+    if n < b.len() && b[n] == b'\n' {
+        n += 1;
+    }
+    (e, n)
+}
+
+fn parse_seed(name: &'static str, bytes: Vec<u8>) -> Result<Seed, String> {
+    let sx = find_last(&bytes, b"startxref").ok_or("no startxref")?;
+    let (_, num_start) = read_line(&bytes, sx);
+    let (num_end, after_num) = read_line(&bytes, num_start);
+    let xref_off: usize = std::str::from_utf8(&bytes[num_start..num_end]).map_err(|e| e.to_string())?.trim().parse().map_err(|e| format!("startxref value: {e}"))?;
+    if !bytes[xref_off..].starts_with(b"xref") {
+        return Err("startxref does not point at a classic table".into());
+    }
+    let (_, mut pos) = read_line(&bytes, xref_off);
+    let xref_line = bytes[xref_off..pos].to_vec();
+    let mut subsections = Vec::new();
+    let mut in_use = Vec::new();
+    loop {
+        if bytes[pos..].starts_with(b"trailer") {
+            break;
+        }
+        let (le, ln) = read_line(&bytes, pos);
+        let hdr = std::str::from_utf8(&bytes[pos..le]).map_err(|e| e.to_string())?;
+        let mut it = hdr.split_whitespace();
+        let start: u32 = it.next().ok_or("subsection header")?.parse().map_err(|e| format!("subsection start: {e}"))?;
+        let count: u32 = it.next().ok_or("subsection header")?.parse().map_err(|e| format!("subsection count: {e}"))?;
+        let header = bytes[pos..ln].to_vec();
+        pos = ln;
+        let mut ents = Vec::new();
+        for i in 0..count {
+            let e = bytes.get(pos..pos + 20).ok_or("entry past EOF")?;
+            let off: u64 = std::str::from_utf8(&e[..10]).map_err(|e| e.to_string())?.parse().map_err(|e| format!("entry offset: {e}"))?;
+            let gen: u16 = std::str::from_utf8(&e[11..16]).map_err(|e| e.to_string())?.parse().map_err(|e| format!("entry gen: {e}"))?;
+            let iu = e[17] == b'n';
+            if iu {
+                in_use.push((subsections.len(), ents.len()));
+            }
+            ents.push(Entry { num: start + i, off, gen, in_use: iu, eol: [e[18], e[19]] });
+            pos += 20;
+        }
+        subsections.push((header, ents));
+    }
+    let trailer = bytes[pos..sx].to_vec();
+    let s = Seed { name, xref_off, xref_line, subsections, trailer_kw_len: 7, trailer, tail_after_number: bytes[after_num..].to_vec(), in_use, bytes };
+    // the undamaged rendering must reproduce the file byte for byte
+    let again = render(&s, &Dmg::default());
+    if again != s.bytes {
+        return Err("table model does not re-render the original bytes".into());
+    }
+    Ok(s)
+}
+
+fn lib_doc(pages: usize, compress: bool, meta: bool) -> Result<Vec<u8>, String> {
+    use oxidize_pdf::{Document, Font, Page};
+    let mut doc = Document::new();
+    doc.set_compress(compress);
+    if meta {
+        doc.set_title("C19 seed");
+        doc.set_author("verif");
+    }
+    for i in 0..pages {
+        let mut page = Page::a4();
+        page.text().set_font(Font::Helvetica, 12.0).at(72.0, 720.0).write(&format!("Seed page {}", i + 1)).map_err(|e| e.to_string())?;
+        if i % 2 == 1 {
+            page.graphics().rect(50.0, 50.0, 100.0 + i as f64, 80.0).fill();
+        }
+        doc.add_page(page);
+    }
+    doc.to_bytes().map_err(|e| e.to_string())
+}
+
+fn scattered_doc() -> Vec<u8> {
+    // objects out of numeric order, a gap (object 6 never existed → two subsections), a free
+    // entry inside a subsection (object 4), an /Info dictionary, an object with generation 2,
+    // and an orphaned earlier copy of object 7 that the table does not reference
+    let font = Obj::dict(vec![("Type", Obj::name("Font")), ("Subtype", Obj::name("Type1")), ("BaseFont", Obj::name("Courier"))]);
+    let mut r = Revision::new(XrefForm::Table);
+    r.add(7, Obj::dict(vec![("Orphan", Obj::str(b"older copy of 7, not referenced by the table"))]));
+    r.add(5, Obj::stream(vec![], b"BT /F1 10 Tf 50 700 Td (scattered) Tj ET".to_vec()));
+    r.add(3, Obj::dict(vec![
+        ("Type", Obj::name("Page")),
+        ("Parent", Obj::Ref(2, 0)),
+        ("MediaBox", Obj::Array(vec![Obj::Int(0), Obj::Int(0), Obj::Int(300), Obj::Int(400)])),
+        ("Resources", Obj::dict(vec![("Font", Obj::dict(vec![("F1", Obj::Ref(7, 0))]))])),
+        ("Contents", Obj::Ref(5, 0)),
+        ("Rotate", Obj::Ref(9, 2)),
+    ]));
+    r.add(1, Obj::dict(vec![("Type", Obj::name("Catalog")), ("Pages", Obj::Ref(2, 0))]));
+    r.add(2, Obj::dict(vec![("Type", Obj::name("Pages")), ("Kids", Obj::Array(vec![Obj::Ref(3, 0)])), ("Count", Obj::Int(1))]));
+    r.add(7, font);
+    r.objects.push((9, 2, Obj::Int(90)));
+    r.add(8, Obj::dict(vec![("Title", Obj::str(b"scattered")), ("Producer", Obj::str(b"refpdf builder"))]));
+    r.free.push((4, 1));
+    let mut fb = FileBuilder::new(1);
+    fb.info = Some((8, 0));
+    fb.revisions.push(r);
+    fb.build().bytes
+}
+
+// ------------------------------------------------------------------ damage
+
+#[derive(Clone, Copy, Debug, PartialEq, Eq, Hash)]
+enum Sx {
+    Keep,
+    Deleted,
+    Zero,
+    MidObject,
+    Eof,
+}
+
+#[derive(Clone, Copy, Debug, PartialEq, Eq, Hash)]
+enum D {
+    Shift(i64),
+    Garbage(usize),
+    Plus3(usize),
+    Swap(usize, usize),
+    DeleteTable,
+    Startxref(Sx),
+    DeleteTrailerKw,
+}
+
+#[derive(Clone, Debug, Default)]
+struct Dmg {
+    shift: i64,
+    garbage: Vec<usize>,
+    plus3: Vec<usize>,
+    swaps: Vec<(usize, usize)>,
+    delete_table: bool,
+    sx: Option<Sx>,
+    delete_trailer_kw: bool,
+}
+impl Dmg {
+    fn apply(&mut self, d: D) {
+        match d {
+            D::Shift(s) => self.shift += s,
+            D::Garbage(i) => self.garbage.push(i),
+            D::Plus3(i) => self.plus3.push(i),
+            D::Swap(i, j) => self.swaps.push((i, j)),
+            D::DeleteTable => self.delete_table = true,
+            D::Startxref(s) => self.sx = Some(s),
+            D::DeleteTrailerKw => self.delete_trailer_kw = true,
+        }
+    }
+    /// the library's primary cross-reference parse cannot succeed → the recovery scan runs
+    fn primary_must_fail(&self) -> bool {
+        self.delete_table || matches!(self.sx, Some(s) if s != Sx::Keep)
+    }
+}
+
+fn catalogue(s: &Seed) -> Vec<D> {
+    let n = s.in_use.len();
+    let mut v = vec![D::Shift(1), D::Shift(-1), D::Shift(7), D::Shift(-7), D::Shift(1000)];
+    for i in 0..n {
+        v.push(D::Garbage(i));
+    }
+    for i in 0..n {
+        v.push(D::Plus3(i));
+    }
+    for i in 0..n {
+        for j in i + 1..n {
+            v.push(D::Swap(i, j));
+        }
+    }
+    v.push(D::DeleteTable);
+    for sx in [Sx::Deleted, Sx::Zero, Sx::MidObject, Sx::Eof] {
+        v.push(D::Startxref(sx));
+    }
+    v.push(D::DeleteTrailerKw);
+    v
+}
+
+/// Offset field (10 bytes) of every in-use entry after the damage, by flat in-use index.
+fn damaged_fields(s: &Seed, d: &Dmg) -> Vec<Vec<u8>> {
+    let mut f: Vec<Vec<u8>> = s
+        .in_use
+        .iter()
+        .enumerate()
+        .map(|(k, &(si, ei))| {
+            let e = &s.subsections[si].1[ei];
+            let mut off = e.off as i64;
+            if d.plus3.contains(&k) {
+                off += 3;
+            }
+            off += d.shift;
+            if d.garbage.contains(&k) {
+                b"00000000ab".to_vec()
+            } else {
+                format!("{:010}", off.max(0)).into_bytes()
+            }
+        })
+        .collect();
+    for &(i, j) in &d.swaps {
+        f.swap(i, j);
+    }
+    f
+}
+
+fn render(s: &Seed, d: &Dmg) -> Vec<u8> {
+    let mut out = s.bytes[..s.xref_off].to_vec();
+    if !d.delete_table {
+        out.extend_from_slice(&s.xref_line);
+        let fields = damaged_fields(s, d);
+        let mut k = 0;
+        for (hdr, ents) in &s.subsections {
+            out.extend_from_slice(hdr);
+            for e in ents {
+                if e.in_use {
+                    out.extend_from_slice(&fields[k]);
+                    k += 1;
+                } else {
+                    out.extend_from_slice(format!("{:010}", e.off).as_bytes());
+                }
+                out.extend_from_slice(format!(" {:05} {}", e.gen, if e.in_use { 'n' } else { 'f' }).as_bytes());
+                out.extend_from_slice(&e.eol);
+            }
+        }
+    }
+    if d.delete_trailer_kw {
+        out.extend_from_slice(&s.trailer[s.trailer_kw_len..]);
+    } else {
+        out.extend_from_slice(&s.trailer);
+    }
+    let first_obj = s.in_use.iter().map(|&(si, ei)| s.subsections[si].1[ei].off).min().unwrap_or(0);
+    let target = match d.sx.unwrap_or(Sx::Keep) {
+        Sx::Keep => Some(s.xref_off as u64),
+        Sx::Deleted => None,
+        Sx::Zero => Some(0),
+        Sx::MidObject => Some(first_obj + 4),
+        Sx::Eof => Some(s.bytes.len() as u64),
+    };
+    if let Some(t) = target {
+        out.extend_from_slice(format!("startxref\n{t}\n").as_bytes());
+    }
+    out.extend_from_slice(&s.tail_after_number);
+    out
+}
+
+// ------------------------------------------------------------------ observation
+
+type Val = Result<Vec<u8>, String>;
+
+#[derive(Clone, Debug, PartialEq)]
+struct View {
+    open: Result<(), String>,
+    catalog: Option<Val>,
+    reader_count: Option<Result<u32, String>>,
+    doc_count: Option<Result<u32, String>>,
+    objects: BTreeMap<u32, Val>,
+    panic: Option<String>,
+}
+
+fn observe(bytes: &[u8], opts: &ParseOptions, objs: &[(u32, u16)]) -> View {
+    let mut v = View { open: Ok(()), catalog: None, reader_count: None, doc_count: None, objects: BTreeMap::new(), panic: None };
+    let r = vx::guard(|| {
+        let mut reader = match PdfReader::new_with_options(Cursor::new(bytes.to_vec()), opts.clone()) {
+            Ok(r) => r,
+            Err(e) => {
+                v.open = Err(e.to_string());
+                return;
+            }
+        };
+        v.catalog = Some(reader.catalog().map(|d| objcmp::canon_lib(&oxidize_pdf::parser::objects::PdfObject::Dictionary(d.clone()))).map_err(|e| e.to_string()));
+        v.reader_count = Some(reader.page_count().map_err(|e| e.to_string()));
+        for &(n, g) in objs {
+            let got = reader.get_object(n, g).map(objcmp::canon_lib).map_err(|e| e.to_string());
+            v.objects.insert(n, got);
+        }
+        let doc = PdfDocument::new(reader);
+        v.doc_count = Some(doc.page_count().map_err(|e| e.to_string()));
+    });
+    if let Err(p) = r {
+        v.panic = Some(p);
+    }
+    v
+}
+
+fn presets() -> [(&'static str, ParseOptions); 3] {
+    [("default", ParseOptions::default()), ("lenient", ParseOptions::lenient()), ("skip_errors", ParseOptions::skip_errors())]
+}
+
+struct Prepared {
+    seed: Seed,
+    menu: Vec<D>,
+    objs: Vec<(u32, u16)>,
+    intact: Vec<View>,
+    catalog_num: u32,
+    /// every object the page count depends on: catalog and all page-tree nodes
+    tree_nums: Vec<u32>,
+}
+
+fn short(v: &Val) -> String {
+    match v {
+        Ok(b) => format!("Ok({})", vx::show_bytes(b, 90)),
+        Err(e) => format!("Err({})", vx::one_line(e, 120)),
+    }
+}
+
+pub fn run(rep: &mut Report) {
+    crate::util::tune_malloc();
+    rep.level = "fault_enumeration";
+    let thorough = rep.tier.is_thorough();
+    rep.rule("case = (seed file, one damage or an unordered pair of damages from the catalogue) opened under each recovery-enabled preset; \
+              non-trivial = the damaged bytes differ from the intact file; distinct = distinct (seed, damaged table/trailer/startxref rendering)");
+    rep.assume("oracle = the library's own intact open of the same seed under the same preset (catalog, page counts, every object value); \
+                every seed must first pass refpdf's strict validator and be fully readable intact");
+    rep.assume("library-written seeds carry the current date, so inputs are hashed by seed name + damaged cross-reference rendering, not by file bytes");
+    rep.assume("a flipped in-use flag (n→f) is not in the catalogue: a table that says 'free' is indistinguishable from a valid file");
+
+    // ---- seeds
+    let mut raw: Vec<(&'static str, Result<Vec<u8>, String>)> = vec![
+        ("lib-1page", lib_doc(1, true, false)),
+        ("lib-3pages-meta", lib_doc(3, true, true)),
+        ("lib-2pages-uncompressed", lib_doc(2, false, true)),
+        ("ref-1page", Ok(refpdf::builder::simple_doc(1, XrefForm::Table, false).bytes)),
+        ("ref-3pages", Ok(refpdf::builder::simple_doc(3, XrefForm::Table, false).bytes)),
+        ("ref-scattered", Ok(scattered_doc())),
+    ];
+    let mut prepared: Vec<Prepared> = Vec::new();
+    for (name, bytes) in raw.drain(..) {
+        let bytes = match bytes {
+            Ok(b) => b,
+            Err(e) => {
+                rep.machinery_error(format!("seed {name}: cannot be written: {e}"));
+                return;
+            }
+        };
+        let f = match PdfFile::parse(&bytes) {
+            Ok(f) => f,
+            Err(e) => {
+                rep.machinery_error(format!("seed {name}: reference reader: {e}"));
+                return;
+            }
+        };
+        let issues = refpdf::file::validate_file(&f);
+        if !issues.is_empty() {
+            rep.machinery_error(format!("seed {name}: strict validator: {issues:?}"));
+            return;
+        }
+        if f.sections.len() != 1 || f.xref.values().any(|e| matches!(e, refpdf::file::XEntry::Compressed { .. })) {
+            rep.machinery_error(format!("seed {name}: not a single-revision file without object streams"));
+            return;
+        }
+        let seed = match parse_seed(name, bytes) {
+            Ok(s) => s,
+            Err(e) => {
+                rep.machinery_error(format!("seed {name}: {e}"));
+                return;
+            }
+        };
+        let objs: Vec<(u32, u16)> = seed.in_use.iter().map(|&(si, ei)| (seed.subsections[si].1[ei].num, seed.subsections[si].1[ei].gen)).collect();
+        let mut intact = Vec::new();
+        for (pname, opts) in presets() {
+            let v = observe(&seed.bytes, &opts, &objs);
+            let all_ok = v.panic.is_none()
+                && v.open.is_ok()
+                && matches!(v.catalog, Some(Ok(_)))
+                && matches!(v.reader_count, Some(Ok(_)))
+                && matches!(v.doc_count, Some(Ok(_)))
+                && v.objects.values().all(|o| o.is_ok());
+            if !all_ok {
+                rep.machinery_error(format!("seed {name}: intact open under {pname} is not clean: {v:?}"));
+                return;
+            }
+            // the intact library view must agree with the reference reader on every object
+            for &(n, _) in &objs {
+                let want = objcmp::canon(&f.get(n));
+                if v.objects[&n].as_ref().ok() != Some(&want) {
+                    rep.machinery_error(format!("seed {name}: intact object {n} under {pname}: library {} vs reference {}", short(&v.objects[&n]), vx::show_bytes(&want, 90)));
+                    return;
+                }
+            }
+            if v.reader_count != Some(Ok(f.pages().map(|p| p.len() as u32).unwrap_or(u32::MAX))) {
+                rep.machinery_error(format!("seed {name}: intact page count {:?} differs from the reference reader", v.reader_count));
+                return;
+            }
+            intact.push(v);
+        }
+        let catalog_num = f.trailer.get("Root").and_then(|r| r.as_ref()).map(|r| r.0).unwrap_or(0);
+        let mut tree_nums = vec![catalog_num];
+        let mut todo: Vec<u32> = f.catalog().ok().and_then(|c| c.dict_get("Pages").and_then(|p| p.as_ref())).map(|r| vec![r.0]).unwrap_or_default();
+        while let Some(n) = todo.pop() {
+            if tree_nums.contains(&n) {
+                continue;
+            }
+            tree_nums.push(n);
+            if let Some(k) = f.dget(&f.get(n), "Kids").as_array() {
+                todo.extend(k.iter().filter_map(|x| x.as_ref().map(|r| r.0)));
+            }
+        }
+        let menu = catalogue(&seed);
+        prepared.push(Prepared { seed, menu, objs, intact, catalog_num, tree_nums });
+    }
+    rep.note("seeds", json!(prepared.iter().map(|p| json!({"name": p.seed.name, "bytes": p.seed.bytes.len(), "in_use_objects": p.objs.len(), "damages": p.menu.len()})).collect::<Vec<_>>()));
+
+    let section = if thorough { "pairs" } else { "singles" };
+    rep.explore(section, Explore::full(), |c: &mut Ctx| {
+        let si = c.choose("seed", prepared.len());
+        let p = &prepared[si];
+        let d1 = c.choose("damage", p.menu.len());
+        let mut dm = Dmg::default();
+        dm.apply(p.menu[d1]);
+        let mut names = vec![format!("{:?}", p.menu[d1])];
+        if thorough {
+            // second damage: none, or any later entry of the catalogue (unordered pairs)
+            let d2 = c.choose("second", p.menu.len() - d1);
+            if d2 > 0 {
+                dm.apply(p.menu[d1 + d2]);
+                names.push(format!("{:?}", p.menu[d1 + d2]));
+            }
+        }
+        let bytes = render(&p.seed, &dm);
+        c.input(vx::h64(&(p.seed.name, &bytes[p.seed.xref_off.min(bytes.len())..])));
+        if bytes != p.seed.bytes {
+            c.nontrivial();
+        }
+        let recovery = dm.primary_must_fail();
+        let regime = if recovery { "recovery-scan" } else { "table-still-parsable" };
+        // which in-use entries now point somewhere else than the object's true offset
+        let fields = damaged_fields(&p.seed, &dm);
+        let wrong_entry = |n: u32| -> bool {
+            if recovery {
+                return false;
+            }
+            p.seed.in_use.iter().enumerate().any(|(k, &(s, e))| {
+                let ent = &p.seed.subsections[s].1[e];
+                ent.num == n && fields[k] != format!("{:010}", ent.off).into_bytes()
+            })
+        };
+        let desc = format!("seed={} damage={} regime={regime}", p.seed.name, names.join("+"));
+        let mut oh = 0u64;
+        for (pi, (pname, opts)) in presets().into_iter().enumerate() {
+            let want = &p.intact[pi];
+            let got = observe(&bytes, &opts, &p.objs);
+            let ctx = format!("{desc} preset={pname}");
+            if let Some(pm) = &got.panic {
+                c.fail(format!("C19/panic@{}", vx::panic_site(pm)), format!("{ctx}: {pm}"));
+                continue;
+            }
+            if let Err(e) = &got.open {
+                c.fail(format!("C19/{regime}/open-fails"), format!("{ctx}: {e}"));
+                oh = vx::hmix(oh, 1);
+                continue;
+            }
+            let mut diffs = 0u64;
+            // Known signature (KF-C19-1): the damaged table still parses, so the recovery scan never
+            // runs and every entry that now points elsewhere is trusted. It explains a wrong answer
+            // for exactly the objects whose entry is wrong, and for catalog / page count when an
+            // entry they depend on is wrong. Everything else gets its own key.
+            const TRUSTED: &str = "C19/parsable-but-wrong-table-is-trusted";
+            if got.catalog != want.catalog {
+                diffs += 1;
+                let key = if wrong_entry(p.catalog_num) { TRUSTED.to_string() } else { format!("C19/{regime}/catalog-differs") };
+                c.fail(key, format!("{ctx}: catalog: want {} got {}", short(want.catalog.as_ref().unwrap()), short(got.catalog.as_ref().unwrap())));
+            }
+            if got.reader_count != want.reader_count || got.doc_count != want.doc_count {
+                diffs += 1;
+                let key = if p.tree_nums.iter().any(|n| wrong_entry(*n)) { TRUSTED.to_string() } else { format!("C19/{regime}/page-count-differs") };
+                c.fail(key, format!("{ctx}: page count: reader want {:?} got {:?}; document want {:?} got {:?}", want.reader_count, got.reader_count, want.doc_count, got.doc_count));
+            }
+            for (n, wv) in &want.objects {
+                let gv = &got.objects[n];
+                if gv != wv {
+                    diffs += 1;
+                    let sym = if gv.is_err() { "object-lookup-fails" } else { "object-value-differs" };
+                    let key = if wrong_entry(*n) { TRUSTED.to_string() } else { format!("C19/{regime}/{sym}") };
+                    c.fail(key, format!("{ctx}: object {n} ({sym}): want {} got {}", short(wv), short(gv)));
+                }
+            }
+            oh = vx::hmix(oh, diffs);
+        }
+        c.add_evaluations(2);
+        c.outcome(oh);
+        c.sample(json!({"case": desc, "damaged_len": bytes.len()}));
+    });
+}
